@@ -59,12 +59,15 @@ uint64_t walk(Ctx &c, hwloc_obj_t o, const BSet &inherited) {
     }
   }
   if (o->type == HWLOC_OBJ_PU) {
+    // own clause id for the main set: every back-end, the XML importer included, verifies that a PU's cpuset is exactly its os_index
+    if (cs != BSet::single(o->os_index)) c.fail("wf.pu_cpuset_singleton", "PU os=%u has cpuset %s", o->os_index, cs.str().c_str());
     if (cs != BSet::single(o->os_index) || ccs != BSet::single(o->os_index)) c.fail("wf.cpuset_union", "PU os=%u has cpuset %s / complete %s", o->os_index, cs.str().c_str(), ccs.str().c_str());
     if (!c.pu_os.insert(o->os_index).second) c.fail("wf.unique_index", "duplicate PU os_index %u", o->os_index);
     if (o->arity || o->memory_arity) c.fail("wf.pu_level", "PU with normal or memory children");
     if (!(c.d.flags & HWLOC_TOPOLOGY_FLAG_INCLUDE_DISALLOWED) && !c.d.acs.has(o->os_index)) c.fail("wf.allowed", "disallowed PU %u present without INCLUDE_DISALLOWED", o->os_index);
   }
   if (o->type == HWLOC_OBJ_NUMANODE) {
+    if (ns != BSet::single(o->os_index)) c.fail("wf.numa_nodeset_singleton", "NUMA os=%u has nodeset %s", o->os_index, ns.str().c_str());   // likewise verified by every back-end
     if (ns != BSet::single(o->os_index) || cns != BSet::single(o->os_index)) c.fail("wf.nodeset_union", "NUMA os=%u has nodeset %s / complete %s", o->os_index, ns.str().c_str(), cns.str().c_str());
     if (!c.numa_os.insert(o->os_index).second) c.fail("wf.unique_index", "duplicate NUMA os_index %u", o->os_index);
     if (o->arity || o->memory_arity) c.fail("wf.links", "NUMA node with normal or memory children");
